@@ -87,11 +87,21 @@ func vpH_c14_payload() {
 	w1, w2 := mk(), mk()
 	top := 21
 	if vpParam("verifyside") != 0 {
-		top = 26 // the config pairs, case variants, matrix extras and nil/empty inside a matrix do not depend on map orders: fixed-order configuration only
+		top = 27 // the config pairs, case variants, matrix extras and nil/empty inside a matrix do not depend on map orders: fixed-order configuration only
 	}
 	kind := vpInt(0, top)
 	collide := kind <= 3 || kind == 26
 	switch kind {
+	case 27: // repository URLs that a URL library would print alike are different repositories
+		// (concrete spellings: code that hands them to a URL library can be followed)
+		switch vpInt(0, 2) {
+		case 0:
+			w1.repo, w2.repo = "rx", "rx#"
+		case 1:
+			w1.repo, w2.repo = "o/r.git", "o/r.git#"
+		default:
+			w1.repo, w2.repo = "rx#a", "rx#"
+		}
 	case 26: // nil versus empty containers inside a matrix
 		w1.step.Matrix = &pipeline.Matrix{Setup: pipeline.MatrixSetup{"os": {"m"}}}
 		w2.step.Matrix = &pipeline.Matrix{Setup: pipeline.MatrixSetup{"os": {"m"}}, Adjustments: pipeline.MatrixAdjustments{}, RemainingFields: map[string]any{}}
